@@ -14,7 +14,7 @@ from ..configs import ALL, PATTERNS, BY_LABEL, make
 from ..drivers import fresh, raw_stream
 
 WORD = "UDJFVLHZ"
-HOSTS = ["ind", "ind-T2", "ind-T2-fill", "hex3", "hex-T2member"]
+HOSTS = ["ind", "ind-T2", "ind-T2-fill", "hex3", "hex-T2member", "ind-chunk2", "hex3-chunk3"]  # *-chunkN: N candles per append call
 # chained indicators (input_value = another indicator's plain or dotted reading) inside a Hexital
 CHAINED = {
     "chain:STDEV<-MACD": [("MACD", dict(fast_period=2, slow_period=3, signal_period=2)), ("STDEV", dict(period=3, input_value="MACD_2_3_2.MACD"))],
@@ -99,13 +99,13 @@ def build(cfg, host):
                 kw["analysis"] = MOVEMENT_MAP[kw["analysis"]]
             inds.append(INDICATOR_MAP[cls](**kw))
         return Hexital("h", [], inds), None
-    if host == "ind":
+    if host in ("ind", "ind-chunk2"):
         return make(cfg), None
     if host == "ind-T2":
         return make(cfg, timeframe="T2"), "T2"
     if host == "ind-T2-fill":
         return make(cfg, timeframe="T2", timeframe_fill=True), "T2"
-    if host == "hex3":
+    if host in ("hex3", "hex3-chunk3"):
         others = [c for c in ("SMA2", "RSI2", "MACD232") if c != cfg["label"]][:2]
         return Hexital("h", [], [make(cfg)] + [make(BY_LABEL[o]) for o in others]), None
     return Hexital("h", [], [make(cfg, timeframe="T2"), make(BY_LABEL["EMA3"])]), "T2"
@@ -132,6 +132,10 @@ def measure(item):
         else:
             raw = raw_stream({"constant": "U", "flat": "F"}[rot] * N, "+" if tf else "b", gaps, tf)
     cands = fresh(raw)
+    chunk = int(host.rsplit("chunk", 1)[1]) if "chunk" in host else 1
+    if chunk > 1:  # one measurement per append CALL; n counts calls
+        cands = [cands[i:i + chunk] for i in range(0, len(cands) - chunk + 1, chunk)]
+        N = len(cands)
     m = Meter()
     counts, other = [], []
     try:
@@ -153,6 +157,8 @@ def measure(item):
     W = 4 * max_param(cfg) + 10 + (10 if cfg in PATTERNS else 0) + (12 if host.startswith("chain:") else 0)
     if tf:
         W *= 2  # two raw candles per bucket
+    if chunk > 1:
+        W = W // chunk + 2  # n counts append calls here
     C = max(counts[W:3 * W])
     rep.inc("executions", N)
     rep.inc("transitions", N)
@@ -191,7 +197,7 @@ def main(prop, tier):
     rots = (0, 3) if tier == "quick" else (0, 2, 4, 6)
     var = A.variant()
     items = [(tier, cfg["label"], host, (r + var["rot"]) % len(WORD)) for cfg in ALL + PATTERNS for host in HOSTS for r in rots]
-    items += [(tier, cfg["label"], host, kind) for cfg in ALL + PATTERNS for host in (("ind", "hex3") if tier == "quick" else HOSTS)
+    items += [(tier, cfg["label"], host, kind) for cfg in ALL + PATTERNS for host in (("ind", "hex3") if tier == "quick" else HOSTS[:5])
               for kind in ("constant", "flat", "trend")]
     items += [(tier, "SMA2", host, kind) for host in CHAINED for kind in (0, 3, "constant", "flat", "trend")]
     rep = merge_all(pmap(measure, items, chunksize=2))
